@@ -67,6 +67,7 @@ func (fr *Frame) instr(st *State, in ssa.Instruction) bool {
 				c.assume(not(eq(o, sx("ref", loc))))
 			}
 		}
+		x.localObjs = append(x.localObjs, localObj{ref: sx("ref", fr.env[in]), ty: in.Type().Underlying().(*types.Pointer).Elem()})
 		x.zeroInit(st, in.Type().Underlying().(*types.Pointer).Elem(), fr.env[in])
 		x.unlockedInit(st, in.Type().Underlying().(*types.Pointer).Elem(), fr.env[in], 0)
 	case *ssa.BinOp:
